@@ -6,7 +6,6 @@
 (***************************************************************************)
 EXTENDS Chars, Integers, SequencesExt, FiniteSets
 
-Str(s) == s   \* documentation only: marks string-valued arguments
 
 \* flatten a sequence of strings
 RECURSIVE Concat(_)
@@ -52,7 +51,6 @@ SnakeLoop(s, i, res, lastUp, lastUnd) ==
                ELSE SnakeLoop(s, i + 1, Append(res, c), FALSE, FALSE)
 ToSnake(s) == SnakeLoop(s, 1, <<>>, FALSE, FALSE)
 
-S(str) == str  \* placeholder to keep keyword list readable
 
 \* the KEYWORDS array of convert_string (strict and reserved keywords; weak keywords are not included)
 Keywords == {
